@@ -85,6 +85,7 @@ Definition ok_N (o : okind) : N :=
   | OpPlain => 0 | OpBnz2B => 1 | OpBz2B => 2 | OpB2B => 3 | OpCallsub2B => 4 | OpBnzV => 5 | OpBzV => 6
   | OpBV => 7 | OpCallsubV => 8 | OpSwitch => 9 | OpMatch => 10 | OpRetsub => 11 | OpIntcBlock => 12
   | OpBytecBlock => 13 | OpPushInts => 14 | OpPushBytess => 15 | OpPushInt => 16 | OpPushBytes => 17
+  | OpReturn => 18
   end%N.
 Definition spec_eqb (a b : opspec) : bool :=
   N.eqb (os_opcode a) (os_opcode b) && N.eqb (os_sub a) (os_sub b) && String.eqb (os_name a) (os_name b)
